@@ -763,6 +763,10 @@ class Driver:
         direction = "in" if st.get("dir", "in") == "in" else "out"
         msg = Message("ChatFromSimulator", Block("ChatData", FromName="someone"),
                       direction=Direction.IN if direction == "in" else Direction.OUT)
+        if st.get("reliable"):
+            from hippolyzer.lib.base.message.msgtypes import PacketFlags
+            msg.send_flags |= PacketFlags.RELIABLE
+            self.res.probe("unencodable_reliable_send")
         n0 = len(self.world.emissions)
         try:
             region.circuit.send(msg)
